@@ -966,3 +966,156 @@ func E4PanicReachability(c *core.Ctx, r *core.Report, rule string, roots []*ssa.
 		}
 	}
 }
+
+// E4ParserProgress: every iteration of ParseSVGPath's command loop consumes input or returns.
+func E4ParserProgress(c *core.Ctx, r *core.Report) {
+	r.Rule("E4.parser-progress", "ParseSVGPath terminates because every iteration of its command loop consumes at least one byte or returns: an iteration that reads a new command letter advances the cursor itself; an iteration that repeats the previous command consumes only the numbers of that command (a failed number parse returns an error), so a command may be repeated only if its entry in the per-command number table is at least 1. Every letter whose table entry is 0 (closepath), in both cases, must therefore be a disjunct `cmd == letter` of the condition that forces reading a new command letter")
+	p := c.MustPkg("")
+	info := p.TypesInfo
+	fd := core.MustFuncDecl(p, "ParseSVGPath")
+	r.Func("canvas.ParseSVGPath")
+	// 1. the number table: map[byte]int literal; letters with 0 numbers
+	var zero []byte
+	entries := 0
+	ast.Inspect(fd.Body, func(n ast.Node) bool {
+		cl, ok := n.(*ast.CompositeLit)
+		if !ok {
+			return true
+		}
+		mt, ok := info.TypeOf(cl).Underlying().(*types.Map)
+		if !ok {
+			return true
+		}
+		if kb, ok := mt.Key().Underlying().(*types.Basic); !ok || kb.Kind() != types.Uint8 {
+			return true
+		}
+		for _, el := range cl.Elts {
+			kv, ok := el.(*ast.KeyValueExpr)
+			if !ok {
+				continue
+			}
+			k, ok1 := core.ConstInt(info, kv.Key)
+			v, ok2 := core.ConstInt(info, kv.Value)
+			if ok1 && ok2 {
+				entries++
+				if v == 0 {
+					zero = append(zero, byte(k))
+				}
+			}
+		}
+		return true
+	})
+	if entries < 5 {
+		panic(core.Infra("E4.parser-progress: the per-command number table of ParseSVGPath was not found"))
+	}
+	// 2. the guard that forces a new command letter: the if whose body sets the bool `repeat`-like local to false and increments the cursor
+	var guard *ast.IfStmt
+	ast.Inspect(fd.Body, func(n ast.Node) bool {
+		is, ok := n.(*ast.IfStmt)
+		if !ok || guard != nil {
+			return true
+		}
+		setsFalse, incs := false, false
+		for _, s := range is.Body.List {
+			switch x := s.(type) {
+			case *ast.AssignStmt:
+				if len(x.Rhs) == 1 {
+					if id, ok := x.Rhs[0].(*ast.Ident); ok && id.Name == "false" && x.Tok == token.ASSIGN {
+						setsFalse = true
+					}
+				}
+			case *ast.IncDecStmt:
+				if x.Tok == token.INC {
+					incs = true
+				}
+			}
+		}
+		if setsFalse && incs {
+			guard = is
+		}
+		return true
+	})
+	if guard == nil {
+		r.Fail("E4.parser-progress", "canvas.ParseSVGPath|new-letter guard", c.Pos(fd.Pos()), "no branch reads a new command letter and advances the cursor: the progress argument cannot be made")
+		return
+	}
+	r.OK("E4.parser-progress", "canvas.ParseSVGPath|new-letter branch advances", c.Pos(guard.Pos()), "the branch that reads a command letter increments the cursor")
+	forced := map[byte]bool{}
+	var flat func(e ast.Expr)
+	flat = func(e ast.Expr) {
+		e = core.Unparen(e)
+		if be, ok := e.(*ast.BinaryExpr); ok {
+			if be.Op == token.LOR {
+				flat(be.X)
+				flat(be.Y)
+				return
+			}
+			if be.Op == token.EQL {
+				if _, isId := core.Unparen(be.X).(*ast.Ident); isId {
+					if v, ok := core.ConstInt(info, be.Y); ok {
+						forced[byte(v)] = true
+					}
+				}
+			}
+		}
+	}
+	flat(guard.Cond)
+	for _, z := range zero {
+		for _, letter := range []byte{z, z | 0x20} {
+			key := fmt.Sprintf("canvas.ParseSVGPath|command '%c' takes no numbers and is never repeated", letter)
+			if forced[letter] {
+				r.OK("E4.parser-progress", key, c.Pos(guard.Pos()), "")
+			} else {
+				r.Fail("E4.parser-progress", key, c.Pos(guard.Pos()), fmt.Sprintf("after a '%c' the next number-like byte repeats the command, which consumes nothing: the loop never advances (ParseSVGPath(\"M0 0%c1\") does not return)", letter, letter))
+			}
+		}
+	}
+	// 3. a failed number parse returns
+	numOK := false
+	ast.Inspect(fd.Body, func(n ast.Node) bool {
+		is, ok := n.(*ast.IfStmt)
+		if !ok {
+			return true
+		}
+		be, ok := core.Unparen(is.Cond).(*ast.BinaryExpr)
+		if !ok || be.Op != token.EQL {
+			return true
+		}
+		if v, ok := core.ConstInt(info, be.Y); !ok || v != 0 {
+			return true
+		}
+		if allPathsReturn(is.Body) {
+			numOK = true
+		}
+		return true
+	})
+	if numOK {
+		r.OK("E4.parser-progress", "canvas.ParseSVGPath|failed number parse returns", c.Pos(fd.Pos()), "")
+	} else {
+		r.Fail("E4.parser-progress", "canvas.ParseSVGPath|failed number parse returns", c.Pos(fd.Pos()), "no `if n == 0 { … return … }` on every path after parsing a number: a repeated command may consume nothing")
+	}
+	r.Count("E4.zero-number-commands", len(zero))
+	r.Floor("E4.zero-number-commands", 1)
+}
+
+// allPathsReturn: every path through the block ends in a return (if/else chains followed).
+func allPathsReturn(b *ast.BlockStmt) bool {
+	if b == nil || len(b.List) == 0 {
+		return false
+	}
+	switch last := b.List[len(b.List)-1].(type) {
+	case *ast.ReturnStmt:
+		return true
+	case *ast.IfStmt:
+		if last.Else == nil || !allPathsReturn(last.Body) {
+			return false
+		}
+		switch e := last.Else.(type) {
+		case *ast.BlockStmt:
+			return allPathsReturn(e)
+		case *ast.IfStmt:
+			return allPathsReturn(&ast.BlockStmt{List: []ast.Stmt{e}})
+		}
+	}
+	return false
+}
